@@ -71,6 +71,7 @@ LEAVES = [
     # string enums
     L("enum_ab", {"type": "string", "enum": ["a", "b"]}, enf=True, strish=True),
     L("enum_odd", {"type": "string", "enum": ["A-b", "c_D", "1x", ""]}, enf=True, strish=True),
+    L("enum_case_pair", {"type": "string", "enum": ["utf8", "base64Url", "base64url", "hex"]}, enf=True, strish=True),   # two members differ only in case, their identifiers do not collide
     L("enum_case", {"type": "string", "enum": ["Foo", "foo", "FOO"]}, enf=True, strish=True),
     L("enum_kw", {"type": "string", "enum": ["type", "self", "Self", "ref"]}, enf=True, strish=True),
     L("enum_one", {"type": "string", "enum": ["only"]}, enf=True, strish=True),
@@ -315,6 +316,11 @@ SOLO_COMPOSITES = [
     L("ref_with_type", {"$ref": "#/definitions/XObj", "type": "object"}, defs={"XObj": obj({"s": STR, "n": INT}, ["s"])}, enf=True),
     L("ref_with_desc", {"$ref": "#/definitions/XObj", "description": "a described reference"}, defs={"XObj": obj({"s": STR, "n": INT}, ["s"])}, enf=True),
     L("all_types", {"type": ["null", "boolean", "object", "array", "number", "string", "integer"]}, enf=False),
+    # near-misses of "every type": one JSON type is left out, and a value of that type must be rejected (the JSON type of scalars is enforced)
+    L("all_types_but_null", {"type": ["boolean", "object", "array", "number", "string", "integer"]}, enf=True),
+    L("all_types_but_null_int", {"type": ["boolean", "object", "array", "number", "string"]}, enf=True),
+    L("all_types_but_string", {"type": ["null", "boolean", "object", "array", "number", "integer"]}, enf=True),
+    L("all_types_but_bool", {"type": ["null", "object", "array", "number", "string", "integer"]}, enf=True),
     L("type_single_list", {"type": ["string"]}, enf=True, strish=True),
     L("multi_type_val", {"type": ["string", "integer"], "maxLength": 2, "minimum": 0}, enf=False),
     L("type_obj_str", {"type": ["object", "string"], "properties": {"a": INT}, "required": ["a"]}, enf=True),
